@@ -400,6 +400,8 @@ impl<'a> Reader for ProtobufReader<'a> {
 
     #[inline]
     fn read_null<C: null::Constraint>(&mut self) -> Result<Null, Self::Error> {
+        // consumes the field number of the (empty) bytes field
+        let _ = self.next_range_format_reader(Format::LengthDelimited);
         Ok(Null)
     }
 }
